@@ -96,6 +96,27 @@ def static_gate(files=None):
     return problems
 
 
+def dep_closure(prop):
+    """.v files the property's Props.v / Run.v depend on (transitively), by their PV imports"""
+    allf = set(v_files())
+    todo = [f for f in ("%s/Props.v" % prop, "%s/Run.v" % prop) if f in allf]
+    seen = set()
+    while todo:
+        f = todo.pop()
+        if f in seen:
+            continue
+        seen.add(f)
+        src = strip_comments(open(os.path.join(COQ, f)).read())
+        for m in re.finditer(r"Require\s+(?:Import\s+|Export\s+)?(.*?)\.(?=\s|$)", src, re.S):
+            for tok in m.group(1).split():
+                if tok.startswith("PV."):
+                    tok = tok[3:]
+                cand = tok.replace(".", "/") + ".v"
+                if cand in allf and cand not in seen:
+                    todo.append(cand)
+    return sorted(seen)
+
+
 def gen_makefile(tag="all"):
     """one Makefile per property tag, so that concurrent checks of different properties never rewrite
     each other's Makefile; every Makefile knows all .v files (dependencies across directories)"""
@@ -194,7 +215,7 @@ def proof_step(prop):
     targets = ["%s/Props.vo" % prop]
     if os.path.exists(os.path.join(COQ, prop, "Run.v")):
         targets.append("%s/Run.vo" % prop)
-    files = v_files()
+    files = dep_closure(prop)
     gate = static_gate(files)
     thms, printed = parse_props(prop)
     res["obligations"] = len(thms)
